@@ -10,7 +10,11 @@
 #define private public
 #include <nstd/Process.hpp>
 #undef private
+// test hook on the harness side only: vfork can be made to fail (the macro is not re-expanded inside itself)
+static int nvFailVfork = 0;
+#define vfork() (nvFailVfork ? (errno = EAGAIN, (pid_t)-1) : vfork())
 #include "../src/Process.cpp"
+#undef vfork
 
 static const char* childPath = "";
 static size_t childPathLen = 0;
@@ -629,6 +633,16 @@ static void opProc(const HxLine& l)
     char* argv[] = {(char*)childPath, (char*)"@exit", code};
     errno = 0;
     bool ok = proc->open(String(childPath, childPathLen), 3, argv, (uint)hxNum(l, 2));
+    snprintf(extra, sizeof(extra), " | einval=%d", errno == EINVAL ? 1 : 0);
+    procObserve(ok, extra);
+  }
+  else if(l.ntok == 3 && strcmp(op, "openfail") == 0)
+  { // vfork fails: nothing may be left behind
+    char* argv[] = {(char*)childPath, (char*)"@exit", (char*)"0"};
+    errno = 0;
+    nvFailVfork = 1;
+    bool ok = proc->open(String(childPath, childPathLen), 3, argv, (uint)hxNum(l, 2));
+    nvFailVfork = 0;
     snprintf(extra, sizeof(extra), " | einval=%d", errno == EINVAL ? 1 : 0);
     procObserve(ok, extra);
   }
